@@ -630,6 +630,16 @@ func (scRecovery) Run(t *testing.T, prop string, seed uint64, cfgRaw json.RawMes
 				w.order = append(w.order, off)
 			} else {
 				w.Probes["retransmissions"]++
+				if w.inAdvance {
+					// a retransmission by timeout, like the ones observe() sees on the wire: the stack is in
+					// timeout recovery from here on, whether or not the frame left the device
+					w.rtoSeen = true
+					w.frActive = false
+					w.Probes["rto_retransmissions"]++
+					if e := w.maxSent(); e > w.recover {
+						w.recover = e
+					}
+				}
 			}
 			sr.times = append(sr.times, f.At)
 			sr.refused++
